@@ -9,7 +9,7 @@ import numpy as np
 from ..harness import (Session, base_tensor, base_tensor_dims, cells_equal, describe_table_diff, one_term, ArgList)
 from ..domain import AxisTable, Term, Form, DataT, Q2, ONE, ZERO_FORM, canon_cell, Base
 from ..errors import AnalysisError, PyExc
-from .. import spec
+from .. import spec, ops
 from .dwtlib import (finding, anchor, exc_finding, compare_cells_multi, adjoint_cells, classify_adj, flatten_out,
                      check_backward, table_matrix)
 
@@ -358,7 +358,7 @@ def w_dt_fwd(S, item):
                                          % (j + 1, list(getattr(t, 'shape', [])), [nb, c] + list(lows[j]))))
                         break
                     exp = {(n, ci): scales[j].cell(n, ci) for n in range(nb) for ci in range(c)}
-                    problems += compare_cells_multi(t, exp, 'scale %d' % (j + 1))
+                    problems += compare_cells_multi(ops.as_nchw(t), exp, 'scale %d' % (j + 1))
                 elif isinstance(t, DataT) and t.numel() > 1:
                     problems.append(('structure', 'scale %d was not requested but is returned' % (j + 1)))
     else:
@@ -367,7 +367,7 @@ def w_dt_fwd(S, item):
                              % (list(getattr(yl, 'shape', [])), [nb, c] + list(lows[-1]))))
         else:
             exp = {(n, ci): lolo.cell(n, ci) for n in range(nb) for ci in range(c)}
-            problems += compare_cells_multi(yl, exp, 'lowpass')
+            problems += compare_cells_multi(ops.as_nchw(yl), exp, 'lowpass')
     if not problems:
         if not isinstance(yh, (list, tuple)) or len(yh) != J:
             problems.append(('structure', 'highpass result is not a list of %d entries' % J))
@@ -383,6 +383,8 @@ def w_dt_fwd(S, item):
                     problems.append(('shape', 'level %d subbands have shape %s, reference %s'
                                      % (j + 1, list(getattr(t, 'shape', [])), [s for _, s in dims])))
                     break
+                if t.dims != [tuple(d) for d in dims]:
+                    t = t.retag_units(dims) or t          # the typing of unit axes is a bookkeeping choice
                 if t.dims != [tuple(d) for d in dims]:
                     problems.append(('layout', 'level %d: height/width axes are not where the layout puts them' % (j + 1)))
                     break
@@ -547,6 +549,8 @@ def move_to_default(t, o_dim, ri_dim):
 def tensors_same(a, b):
     if not isinstance(a, DataT) or not isinstance(b, DataT):
         return 'results are %s and %s' % (type(a).__name__, type(b).__name__)
+    if list(a.shape) == list(b.shape) and a.dims != b.dims:
+        b = b.retag_units(a.dims) or b
     if list(a.shape) != list(b.shape) or a.dims != b.dims:
         return 'shapes / axis kinds %s and %s' % (a.dims, b.dims)
     for idx in np.ndindex(*a.cells.shape):
